@@ -161,6 +161,9 @@ _cache = {}
 
 
 def load(cfg="default", repo=REPO):
+    if cfg == "default":
+        # thorough tier: the same rules on the other build configuration
+        cfg = os.environ.get("IVP_CFG_OVERRIDE", "default")
     key = (cfg, repo)
     if key in _cache:
         return _cache[key]
